@@ -1,37 +1,405 @@
 import Tuc.Model.Utf8
+import Tuc.Model.Chars
 import Tuc.Model.CutStr
 /-!
 # C07 — character mode cuts by Unicode scalar value and never splits one
-(theorems under construction)
+
+* `charLen` (Unicode Table 3-7) decides the head sequence from its own 1–4 bytes
+  (`charLen_bounds`, `charLen_append`, `charLen_take`).
+* `utf8Chars` never runs out of fuel (`utf8CharsFuel_fuel`) and is characterised exactly
+  (`utf8Chars_iff`): `utf8Chars bs = some cs` iff `cs.flatten = bs` and every piece of `cs` is one
+  well-formed scalar value.  Nothing is lost, altered, reordered or split (`utf8Chars_flatten`,
+  `utf8Chars_each`), and any selection, repetition or reordering of characters of valid records
+  is valid UTF-8 again and decodes to exactly those characters (`utf8Chars_of_chars`,
+  `utf8Chars_append`, `validUtf8_append`).
+* The engine: with the `\b|\B` bag (`charsBag`) the field vector that `cut_str` builds for a
+  non-empty record of valid UTF-8 is `rangesOfChars 0 cs` — one range per scalar value, in order
+  (`charFields`, `cutStrCore_chars`); the i-th range cuts out the i-th character
+  (`slice_rangesOfChars`), a range of fields `s+1 ..= e` cuts out exactly the whole characters
+  `s+1 ..= e`, in range, and the result is valid UTF-8 (`charRange_slice`, `charRange_valid`);
+  `--trim` is the identity in this mode (`trimRegex_charMatches`).
+
+That `charMatches` is what the real regex engine returns for `\b|\B` is validated by the
+correspondence check of C07, not proved here (the regex engine is in the trusted base).
 -/
 namespace Tuc
 
-/-- the head sequence is 1 to 4 bytes long and lies inside the string -/
-theorem charLen_bounds (bs : Bytes) (k : Nat) (h : charLen bs = some k) : 1 ≤ k ∧ k ≤ 4 ∧ k ≤ bs.length := by
+/-- 1. the head sequence is 1 to 4 bytes long and lies inside the string -/
+theorem charLen_bounds (bs : Bytes) (k : Nat) (h : charLen bs = some k) :
+    1 ≤ k ∧ k ≤ 4 ∧ k ≤ bs.length := by
   unfold charLen at h
-  split at h
-  · cases h
-  · rename_i b0 t
-    split at h
-    · simp only [Option.some.injEq] at h; subst h; simp
-    · split at h
-      · split at h
-        · split at h
-          · simp only [Option.some.injEq] at h; subst h; simp
-          · cases h
-        · cases h
-      · split at h
-        · split at h
-          · split at h
-            · simp only [Option.some.injEq] at h; subst h; simp
-            · cases h
-          · cases h
-        · split at h
-          · split at h
-            · split at h
-              · simp only [Option.some.injEq] at h; subst h; simp
-              · cases h
-            · cases h
-          · cases h
+  repeat' split at h
+  all_goals first
+    | cases h; done
+    | (simp only [Option.ite_none_right_eq_some, Option.some.injEq] at h
+       first | subst h | obtain ⟨_, rfl⟩ := h
+       simp)
+
+/-- the head sequence is decided by its own bytes: whatever follows them, the answer is the same -/
+theorem charLen_take_append (bs : Bytes) (k : Nat) (rest : Bytes) (h : charLen bs = some k) :
+    charLen (bs.take k ++ rest) = some k := by
+  unfold charLen at h
+  repeat' split at h
+  all_goals first
+    | cases h; done
+    | (simp only [Option.ite_none_right_eq_some, Option.some.injEq] at h
+       first | subst h | obtain ⟨_, rfl⟩ := h
+       simp [charLen, *])
+
+/-- the head sequence, cut out, is a well-formed sequence of exactly its own length -/
+theorem charLen_take (bs : Bytes) (k : Nat) (h : charLen bs = some k) :
+    charLen (bs.take k) = some (bs.take k).length := by
+  have := charLen_take_append bs k [] h
+  have hb := charLen_bounds bs k h
+  rw [List.append_nil] at this
+  rw [this, List.length_take, Nat.min_eq_left hb.2.2]
+
+/-- 2. the head sequence is decided by its own bytes -/
+theorem charLen_append (c rest : Bytes) (h : charLen c = some c.length) :
+    charLen (c ++ rest) = some c.length := by
+  have := charLen_take_append c c.length rest h
+  rwa [List.take_length] at this
+
+theorem utf8CharsFuel_fuel_eq (n : Nat) : ∀ (m : Nat) (bs : Bytes), bs.length ≤ n → bs.length ≤ m →
+    utf8CharsFuel n bs = utf8CharsFuel m bs := by
+  induction n with
+  | zero =>
+    intro m bs h _
+    have : bs = [] := List.eq_nil_of_length_eq_zero (by omega)
+    subst this
+    cases m <;> rfl
+  | succ n ih =>
+    intro m bs hn hm
+    cases bs with
+    | nil => cases m <;> rfl
+    | cons b t =>
+      cases m with
+      | zero => simp at hm
+      | succ m =>
+        simp only [utf8CharsFuel]
+        cases hk : charLen (b :: t) with
+        | none => rfl
+        | some k =>
+          have hb := charLen_bounds _ _ hk
+          simp only
+          rw [ih m]
+          · simp only [List.length_drop, List.length_cons] at hn ⊢; omega
+          · simp only [List.length_drop, List.length_cons] at hm ⊢; omega
+
+/-- 3. the fuel never runs out -/
+theorem utf8CharsFuel_fuel (n : Nat) (bs : Bytes) (h : bs.length ≤ n) :
+    utf8CharsFuel n bs = utf8CharsFuel bs.length bs :=
+  utf8CharsFuel_fuel_eq n bs.length bs h (Nat.le_refl _)
+
+/-- one step of the segmentation -/
+theorem utf8Chars_cons (c rest : Bytes) (h : charLen c = some c.length) :
+    utf8Chars (c ++ rest) = (utf8Chars rest).map (c :: ·) := by
+  have hb := charLen_bounds _ _ h
+  cases c with
+  | nil => simp at hb
+  | cons b t =>
+    have h' := charLen_append _ rest h
+    unfold utf8Chars
+    simp only [List.cons_append, List.length_cons] at h' ⊢
+    simp only [utf8CharsFuel, h']
+    have e1 : List.drop (t.length + 1) (b :: (t ++ rest)) = rest := by simp
+    have e2 : List.take (t.length + 1) (b :: (t ++ rest)) = b :: t := by simp
+    rw [e1, e2, utf8CharsFuel_fuel _ rest (by simp)]
+
+theorem utf8Chars_nil : utf8Chars [] = some [] := rfl
+
+
+theorem utf8CharsFuel_sound (n : Nat) : ∀ (bs : Bytes) (cs : List Bytes),
+    utf8CharsFuel n bs = some cs → cs.flatten = bs ∧ ∀ c ∈ cs, charLen c = some c.length := by
+  induction n with
+  | zero =>
+    intro bs cs h
+    cases bs with
+    | nil => simp only [utf8CharsFuel, Option.some.injEq] at h; subst h; simp
+    | cons b t => simp [utf8CharsFuel] at h
+  | succ n ih =>
+    intro bs cs h
+    cases bs with
+    | nil => simp only [utf8CharsFuel, Option.some.injEq] at h; subst h; simp
+    | cons b t =>
+      simp only [utf8CharsFuel] at h
+      cases hk : charLen (b :: t) with
+      | none => simp [hk] at h
+      | some k =>
+        simp only [hk, Option.map_eq_some_iff] at h
+        obtain ⟨cs', hcs', rfl⟩ := h
+        obtain ⟨h1, h2⟩ := ih _ _ hcs'
+        constructor
+        · rw [List.flatten_cons, h1, List.take_append_drop]
+        · intro c hc
+          rcases List.mem_cons.1 hc with rfl | hc
+          · exact charLen_take _ _ hk
+          · exact h2 c hc
+
+/-- 4. nothing is lost, altered or reordered, and no character is split -/
+theorem utf8Chars_flatten (bs : Bytes) (cs : List Bytes) (h : utf8Chars bs = some cs) :
+    cs.flatten = bs := (utf8CharsFuel_sound _ bs cs h).1
+
+/-- 5. every piece is exactly one well-formed scalar value (of 1–4 bytes, `charLen_bounds`) -/
+theorem utf8Chars_each (bs : Bytes) (cs : List Bytes) (h : utf8Chars bs = some cs) :
+    ∀ c ∈ cs, charLen c = some c.length := (utf8CharsFuel_sound _ bs cs h).2
+
+/-- 6. any list of well-formed scalar values — hence any selection, repetition or reordering of
+    characters of valid records — concatenates to valid UTF-8 that decodes to exactly that list -/
+theorem utf8Chars_of_chars (cs : List Bytes) (h : ∀ c ∈ cs, charLen c = some c.length) :
+    utf8Chars cs.flatten = some cs := by
+  induction cs with
+  | nil => rfl
+  | cons c cs ih =>
+    rw [List.flatten_cons, utf8Chars_cons c _ (h c (List.mem_cons_self ..)),
+      ih (fun c' hc' => h c' (List.mem_cons_of_mem _ hc'))]
+    rfl
+
+/-- the exact characterisation of the segmentation (and its uniqueness) -/
+theorem utf8Chars_iff (bs : Bytes) (cs : List Bytes) :
+    utf8Chars bs = some cs ↔ cs.flatten = bs ∧ ∀ c ∈ cs, charLen c = some c.length := by
+  constructor
+  · intro h; exact ⟨utf8Chars_flatten bs cs h, utf8Chars_each bs cs h⟩
+  · rintro ⟨rfl, h⟩; exact utf8Chars_of_chars cs h
+
+theorem utf8Chars_append (a b : Bytes) (ca cb : List Bytes) (ha : utf8Chars a = some ca)
+    (hb : utf8Chars b = some cb) : utf8Chars (a ++ b) = some (ca ++ cb) := by
+  rw [utf8Chars_iff] at ha hb ⊢
+  obtain ⟨rfl, ha⟩ := ha
+  obtain ⟨rfl, hb⟩ := hb
+  refine ⟨List.flatten_append, ?_⟩
+  intro c hc
+  rcases List.mem_append.1 hc with hc | hc
+  · exact ha c hc
+  · exact hb c hc
+
+theorem validUtf8_iff (bs : Bytes) : validUtf8 bs = true ↔ ∃ cs, utf8Chars bs = some cs := by
+  simp [validUtf8, Option.isSome_iff_exists]
+
+theorem validUtf8_append (a b : Bytes) (ha : validUtf8 a) (hb : validUtf8 b) :
+    validUtf8 (a ++ b) := by
+  rw [validUtf8_iff] at ha hb ⊢
+  obtain ⟨ca, ha⟩ := ha
+  obtain ⟨cb, hb⟩ := hb
+  exact ⟨_, utf8Chars_append a b ca cb ha hb⟩
+
+/-- any selection, repetition or reordering of characters of valid text is valid text -/
+theorem validUtf8_flatten_of_chars (cs : List Bytes) (h : ∀ c ∈ cs, charLen c = some c.length) :
+    validUtf8 cs.flatten := by
+  rw [validUtf8_iff]; exact ⟨cs, utf8Chars_of_chars cs h⟩
+
+/-- "aé€😎" -/
+example : utf8Chars [0x61,0xC3,0xA9,0xE2,0x82,0xAC,0xF0,0x9F,0x98,0x8E] =
+    some [[0x61],[0xC3,0xA9],[0xE2,0x82,0xAC],[0xF0,0x9F,0x98,0x8E]] := by decide
+/-- "😎a€" rebuilt from characters of the record above, one repeated: valid, same characters -/
+example : utf8Chars ([[0xF0,0x9F,0x98,0x8E],[0x61],[0xE2,0x82,0xAC],[0x61]] : List Bytes).flatten =
+    some [[0xF0,0x9F,0x98,0x8E],[0x61],[0xE2,0x82,0xAC],[0x61]] := by decide
+/-- an overlong form, a surrogate, a value above U+10FFFF, a truncated sequence and a stray
+    continuation byte are not UTF-8 -/
+example : utf8Chars [0xC0,0x80] = none ∧ utf8Chars [0xED,0xA0,0x80] = none ∧
+    utf8Chars [0xF4,0x90,0x80,0x80] = none ∧ utf8Chars [0x61,0xE2,0x82] = none ∧
+    utf8Chars [0x80] = none := by decide
+
+
+/-! ## the engine -/
+
+/-- consecutive ranges of the characters, starting at `pos` -/
+def rangesOfChars : Nat → List Bytes → List Range
+  | _, [] => []
+  | pos, c :: t => ⟨pos, pos + c.length⟩ :: rangesOfChars (pos + c.length) t
+
+theorem rangesOfChars_length (pos : Nat) (cs : List Bytes) :
+    (rangesOfChars pos cs).length = cs.length := by
+  induction cs generalizing pos with
+  | nil => rfl
+  | cons c t ih => simp [rangesOfChars, ih]
+
+theorem rangesBetweenMatches_boundaries (L : Nat) (cs : List Bytes) : ∀ (prev pos : Nat),
+    rangesBetweenMatches L prev ((boundariesFrom pos cs).map fun p => (p, p)) =
+      ⟨prev, pos⟩ :: (rangesOfChars pos cs ++ [⟨pos + cs.flatten.length, L⟩]) := by
+  induction cs with
+  | nil => intro prev pos; simp [boundariesFrom, rangesBetweenMatches, rangesOfChars]
+  | cons c t ih =>
+    intro prev pos
+    simp only [boundariesFrom, List.map_cons, rangesBetweenMatches, ih, rangesOfChars,
+      List.flatten_cons, List.length_append, List.cons_append, Nat.add_assoc]
+
+/-- what `fill_with_fields_locations_using_regex` returns for the `\b|\B` bag -/
+theorem fill_charMatches (line : Bytes) (cs : List Bytes) (hne : line ≠ [])
+    (hcs : utf8Chars line = some cs) :
+    fillWithFieldsLocationsUsingRegex [] line (charMatches line) =
+      ⟨0, 0⟩ :: (rangesOfChars 0 cs ++ [⟨line.length, line.length⟩]) := by
+  have hf := utf8Chars_flatten line cs hcs
+  unfold fillWithFieldsLocationsUsingRegex charMatches
+  rw [hcs]
+  simp only [List.isEmpty_iff, hne, if_false]
+  rw [rangesBetweenMatches_boundaries, hf, Nat.zero_add]
+
+/-- **the fields of character mode are exactly the scalar values of the record, in order** -/
+theorem charFields (line : Bytes) (cs : List Bytes) (hne : line ≠ [])
+    (hcs : utf8Chars line = some cs) :
+    (fillWithFieldsLocationsUsingRegex [] line (charMatches line)).length > 2 ∧
+    (fillWithFieldsLocationsUsingRegex [] line (charMatches line)).dropLast.drop 1 =
+      rangesOfChars 0 cs := by
+  rw [fill_charMatches line cs hne hcs]
+  have hcs' : cs ≠ [] := by
+    rintro rfl
+    exact hne (utf8Chars_flatten line [] hcs).symm
+  constructor
+  · have : cs.length > 0 := List.length_pos_iff.2 hcs'
+    simp [rangesOfChars_length]; omega
+  · rw [← List.cons_append, List.dropLast_concat]; rfl
+
+theorem map_slice_rangesOfChars (cs : List Bytes) : ∀ (pre : Bytes),
+    (rangesOfChars pre.length cs).map (fun r => slice (pre ++ cs.flatten) r.start r.stop) = cs := by
+  induction cs with
+  | nil => intro pre; rfl
+  | cons c t ih =>
+    intro pre
+    simp only [rangesOfChars, List.map_cons, List.flatten_cons]
+    have := ih (pre ++ c)
+    rw [List.length_append, List.append_assoc] at this
+    rw [this]
+    congr 1
+    simp [slice]
+
+/-- every range of the field vector cuts out exactly its character -/
+theorem slice_rangesOfChars (line : Bytes) (cs : List Bytes) (hcs : utf8Chars line = some cs) :
+    (rangesOfChars 0 cs).map (fun r => slice line r.start r.stop) = cs := by
+  have := map_slice_rangesOfChars cs []
+  rwa [List.length_nil, List.nil_append, utf8Chars_flatten line cs hcs] at this
+
+
+/-- the `i`-th range starts after the first `i` characters and ends after the first `i+1` -/
+theorem rangesOfChars_getElem? (cs : List Bytes) : ∀ (pos i : Nat),
+    (rangesOfChars pos cs)[i]? =
+      if i < cs.length then
+        some ⟨pos + (cs.take i).flatten.length, pos + (cs.take (i + 1)).flatten.length⟩
+      else none := by
+  induction cs with
+  | nil => intro pos i; simp [rangesOfChars]
+  | cons c t ih =>
+    intro pos i
+    cases i with
+    | zero => simp [rangesOfChars]
+    | succ j =>
+      simp only [rangesOfChars, List.getElem?_cons_succ, ih, List.length_cons,
+        Nat.add_lt_add_iff_right, List.take_succ_cons, List.flatten_cons, List.length_append,
+        Nat.add_assoc]
+
+theorem slice_flatten_take (cs : List Bytes) (s e : Nat) (hse : s ≤ e) :
+    slice cs.flatten (cs.take s).flatten.length (cs.take e).flatten.length =
+      (slice cs s e).flatten := by
+  unfold slice
+  have h1 : cs.flatten = (cs.take s).flatten ++ (cs.drop s).flatten := by
+    rw [← List.flatten_append, List.take_append_drop]
+  have h2 : cs.take e = cs.take s ++ (cs.drop s).take (e - s) := by
+    have : e = s + (e - s) := by omega
+    conv => lhs; rw [this, List.take_add]
+  have h3 : (cs.drop s).flatten =
+      ((cs.drop s).take (e - s)).flatten ++ ((cs.drop s).drop (e - s)).flatten := by
+    rw [← List.flatten_append, List.take_append_drop]
+  rw [h2, List.flatten_append, List.length_append, Nat.add_sub_cancel_left]
+  conv => lhs; rw [h1, List.drop_left, h3, List.take_left]
+
+/-- **character mode never splits a scalar value**: the bytes that the output loop writes for
+    the characters `s+1 ..= e` (`fields[s].start .. fields[e-1].end`, `outputBof`) are exactly
+    the whole characters `s+1 ..= e` of the record, and the slice is in range (no panic) -/
+theorem charRange_slice (line : Bytes) (cs : List Bytes) (hcs : utf8Chars line = some cs)
+    (s e : Nat) (hse : s < e) (he : e ≤ cs.length) (fs fe : Range)
+    (hs : (rangesOfChars 0 cs)[s]? = some fs) (hfe : (rangesOfChars 0 cs)[e - 1]? = some fe) :
+    fs.start ≤ fe.stop ∧ fe.stop ≤ line.length ∧
+      slice line fs.start fe.stop = (slice cs s e).flatten := by
+  have hf := utf8Chars_flatten line cs hcs
+  rw [rangesOfChars_getElem?, if_pos (by omega)] at hs hfe
+  simp only [Option.some.injEq] at hs hfe
+  subst hs hfe
+  have e1 : e - 1 + 1 = e := by omega
+  simp only [Nat.zero_add, e1]
+  have hmono : (cs.take s).flatten.length ≤ (cs.take e).flatten.length := by
+    have : cs.take e = cs.take s ++ (cs.drop s).take (e - s) := by
+      have : e = s + (e - s) := by omega
+      conv => lhs; rw [this, List.take_add]
+    rw [this, List.flatten_append, List.length_append]; omega
+  have hle : (cs.take e).flatten.length ≤ line.length := by
+    have : cs.flatten = (cs.take e).flatten ++ (cs.drop e).flatten := by
+      rw [← List.flatten_append, List.take_append_drop]
+    rw [← hf, this, List.length_append]; omega
+  refine ⟨hmono, hle, ?_⟩
+  rw [← hf]
+  exact slice_flatten_take cs s e (by omega)
+
+
+/-- what is written for a range of characters is valid UTF-8 and decodes to exactly the selected
+    characters -/
+theorem charRange_valid (line : Bytes) (cs : List Bytes) (hcs : utf8Chars line = some cs)
+    (s e : Nat) (hse : s < e) (he : e ≤ cs.length) (fs fe : Range)
+    (hs : (rangesOfChars 0 cs)[s]? = some fs) (hfe : (rangesOfChars 0 cs)[e - 1]? = some fe) :
+    utf8Chars (slice line fs.start fe.stop) = some (slice cs s e) := by
+  rw [(charRange_slice line cs hcs s e hse he fs fe hs hfe).2.2]
+  apply utf8Chars_of_chars
+  intro c hc
+  exact utf8Chars_each line cs hcs c (List.mem_of_mem_drop (List.mem_of_mem_take hc))
+
+/-- "aé€😎": the field vector of character mode, and the text of characters 2–3 -/
+example :
+    (fillWithFieldsLocationsUsingRegex [] [0x61,0xC3,0xA9,0xE2,0x82,0xAC,0xF0,0x9F,0x98,0x8E]
+      (charMatches [0x61,0xC3,0xA9,0xE2,0x82,0xAC,0xF0,0x9F,0x98,0x8E])).dropLast.drop 1 =
+      [⟨0, 1⟩, ⟨1, 3⟩, ⟨3, 6⟩, ⟨6, 10⟩] ∧
+    slice [0x61,0xC3,0xA9,0xE2,0x82,0xAC,0xF0,0x9F,0x98,0x8E] 1 6 = [0xC3,0xA9,0xE2,0x82,0xAC] := by
+  decide
+
+theorem boundariesFrom_head? (cs : List Bytes) (pos : Nat) :
+    (boundariesFrom pos cs).head? = some pos := by
+  cases cs <;> rfl
+
+theorem boundariesFrom_getLast? (cs : List Bytes) : ∀ pos : Nat,
+    (boundariesFrom pos cs).getLast? = some (pos + cs.flatten.length) := by
+  induction cs with
+  | nil => intro pos; simp [boundariesFrom]
+  | cons c t ih =>
+    intro pos
+    have hne : boundariesFrom (pos + c.length) t ≠ [] := by cases t <;> simp [boundariesFrom]
+    obtain ⟨x, l, hl⟩ := List.exists_cons_of_ne_nil hne
+    have := ih (pos + c.length)
+    rw [boundariesFrom, hl, List.getLast?_cons_cons, ← hl, this]
+    simp [Nat.add_assoc]
+
+/-- `--trim` is the identity in character mode: the matches touching the ends are empty -/
+theorem trimRegex_charMatches (line : Bytes) (cs : List Bytes) (k : TrimKind)
+    (hcs : utf8Chars line = some cs) : trimRegex line k (charMatches line) = line := by
+  have hf := utf8Chars_flatten line cs hcs
+  have hh : (charMatches line).head? = some (0, 0) := by
+    simp [charMatches, hcs, List.head?_map, boundariesFrom_head?]
+  have hl : (charMatches line).getLast? = some (line.length, line.length) := by
+    simp [charMatches, hcs, List.getLast?_map, boundariesFrom_getLast?, hf]
+  unfold trimRegex
+  rw [hh, hl]
+  simp [slice]
+
+/-- the whole of `cut_str` in character mode, on a non-empty record of valid UTF-8: the field
+    vector handed to the output stage (and left in the scratch buffer) is the list of the
+    scalar values of the record -/
+theorem cutStrCore_chars (line : Bytes) (opt : Opt) (eol : Bytes) (cs : List Bytes)
+    (hbt : opt.boundsType = .characters) (hbag : opt.regexBag = some charsBag)
+    (hguard : (opt.compressDelimiter || opt.join) = true → opt.replaceDelimiter.isSome = true)
+    (hne : line ≠ []) (hcs : utf8Chars line = some cs) :
+    cutStrCore line opt eol =
+      (emitRecord line (rangesOfChars 0 cs) opt false eol, some (rangesOfChars 0 cs), none) := by
+  obtain ⟨hlen, hfields⟩ := charFields line cs hne hcs
+  have hno : charsBag.normal = charMatches := rfl
+  have hgr : charsBag.greedy = charMatches := rfl
+  have hc1 : ¬(opt.compressDelimiter = true ∧ opt.replaceDelimiter = none) := by
+    rintro ⟨h1, h2⟩; simp [h1, h2] at hguard
+  have hc2 : ¬(opt.join = true ∧ opt.replaceDelimiter = none) := by
+    rintro ⟨h1, h2⟩; simp [h1, h2] at hguard
+  have hlen' : 2 < (fillWithFieldsLocationsUsingRegex [] line (charMatches line)).length := hlen
+  rw [List.drop_one] at hfields
+  unfold cutStrCore
+  generalize opt.trim = tr
+  cases tr with
+  | none => simp [hbag, hbt, hgr, hno, hc1, hc2, hne, hlen', hfields]
+  | some k =>
+    simp [hbag, hbt, hgr, hno, hc1, hc2, hne, hlen', hfields, trimRegex_charMatches line cs k hcs]
 
 end Tuc
